@@ -236,7 +236,7 @@ def r4_seed_flow(chk: Check) -> None:
             chk.decide(isinstance(w.op, ast.Add) and isinstance(w.value, ast.Constant), "C13.R4", loop, f"{norm(w)}", "seed is changed by a non-constant amount", loop.loc(w))
         else:
             t = unparse(w.value)
-            chk.decide(t.endswith("config.execution.seed") or (isinstance(w.value, ast.BinOp) and seed_var in names_in(w.value) and not any(isinstance(c, ast.Call) for c in ast.walk(w.value))), "C13.R4", loop, f"{norm(w)}", f"seed is re-bound to {t}", loop.loc(w))
+            chk.decide(any(x.endswith("config.execution.seed") for x in canon(loop, w.value)) or (isinstance(w.value, ast.BinOp) and seed_var in names_in(w.value) and not any(isinstance(c, ast.Call) for c in ast.walk(w.value))), "C13.R4", loop, f"{norm(w)}", f"seed is re-bound to {t}", loop.loc(w))
     run = P.func("cli/commands/run/__init__.py:run")
     ifs = [n for n in walk_body(run.node) if isinstance(n, ast.If) and "generation_seed is None" in unparse(n.test)]
     if not ifs:
